@@ -466,6 +466,15 @@ fn burst_case(cx: &mut Cx) {
     }
     // the runtime runs a few dozen tasks per yield: let every write finish before the driver reads one notification
     sim.yield_rounds(900);
+    // ... and the driver stays busy elsewhere for a while (virtual seconds): notifications that wait for room in its
+    // command channel must still be there when it gets to them
+    {
+        for _ in 0..cx.rng.gen_range(6..12) {
+            sim.advance(1_000);
+            sim.yield_rounds(20);
+        }
+        cx.count("burst:driver-busy-for-seconds-before-draining");
+    }
     let mut d = || true;
     if !sim.settle(&mut d) {
         cx.inconclusive("burst did not settle");
